@@ -97,6 +97,7 @@ type vfH struct {
 	listShort    int
 	closeErr     error                    // returned by every object Close (the close still counts)
 	ioFailFrom   int64                    // when > 0: ReadAt/WriteAt at or beyond this offset fail (after their gate)
+	listAtErr    func(path string) error  // when it returns an error, the lister for that path fails its ListAt with it (no entries)
 	listOverride map[string][]os.FileInfo // directory path -> entries to list verbatim
 	infoOverride map[string]os.FileInfo   // path -> the FileInfo Stat/Lstat (and so FSTAT) report verbatim
 	log          []string                 // ordered event log: "start WriteAt obj#3", "close obj#3", ...
@@ -663,6 +664,11 @@ func (o *vfHObj) listAt(ls []os.FileInfo, off int64) (int, error) {
 	o.mu.Lock()
 	o.lists++
 	o.mu.Unlock()
+	if o.h.listAtErr != nil {
+		if err := o.h.listAtErr(o.path); err != nil {
+			return 0, err
+		}
+	}
 	if off >= int64(len(o.list)) {
 		return 0, io.EOF
 	}
